@@ -13,6 +13,9 @@
     macro_representation_irrelevant attr_form_eq_elem_form replace_refines_content_strip_attrs
     extract_flat_eq_tree construction_pipeline_eq_compile text_parse_eq_tree text_pipeline_eq_compile
     direlem_attrs_witness
+    regex_flags_documented scan_new_lossless scan_old_lossless scan_new_print_roundtrip
+    text_reaches_stream_escaped text_reaches_stream_escaped_old text_reaches_output_verbatim
+    expression_boundaries_text_template scan_old_line_roundtrip_partial
 -/
 import Genshi.Lemmas.TmplSimMain
 import Genshi.Lemmas.TmplSimRev
@@ -22,6 +25,8 @@ import Genshi.Lemmas.TmplEquiv
 import Genshi.Lemmas.TmplParam
 import Genshi.Lemmas.TmplExtract
 import Genshi.Lemmas.TmplText
+import Genshi.Lemmas.TmplScanText
+import Genshi.Lemmas.TmplScanOld
 namespace Genshi.Props.C04
 open Genshi Genshi.Tmpl
 
@@ -552,5 +557,144 @@ example : IOk (.apply (.if_ (.lit (.atom (.int 0))) :: exPre) [.text ['t']]) exS
 /-- the documentation semantics is defined (does not fail) on the running example, so
     `impl_eq_doc` speaks about it -/
 example : ∃ o, docRender 100 ex1 ex1data = .ok o := ⟨_, rfl⟩
+
+/-! ### the text-template scanners at character level (`Model/TmplScan.lean`) -/
+
+section Scanners
+open Genshi.Tmpl.Scan
+
+/-- The flags of the compiled expressions (regenerated from the code on every run) are the ones
+    the documented syntax needs: a directive or comment may span lines (DOTALL), an old-syntax
+    directive occupies one line (`^` at every line start, `.` stops at the line feed). -/
+theorem regex_flags_documented :
+    Gen.TextScan.newDotall = true ∧ Gen.TextScan.oldMultiline = true ∧ Gen.TextScan.oldDotall = false ∧
+    Gen.TextScan.oldBlank = [9, 32] := by decide
+
+/-- **Losslessness (new syntax).**  For every source text the scanner is total and the source
+    texts of its tokens (text segments, `{%…%}`, `{#…#}`) concatenate to the input: no character of
+    the template is dropped or duplicated. -/
+theorem scan_new_lossless (s : List Char) : (scanNew s).flatMap RTok.src = s := scanNew_lossless s
+
+/-- **Losslessness (old syntax)**: text segments and directive lines concatenate to the input. -/
+theorem scan_old_lossless (s : List Char) : (scanOld s).flatMap OTok.src = s := scanOld_lossless s
+
+/-- **Printer round trip (new syntax).**  Every well-formed token list (non-empty maximal texts;
+    `{% word value %}` whose value holds no `%}` and has no blanks at its ends; comments without
+    `#}`; no text ending in a backslash in front of a delimiter), printed with the documented
+    escapes, is scanned to itself: every documented construct is reachable and means itself. -/
+theorem scan_new_print_roundtrip (ts : List CTok) (wf : WF ts) :
+    (scanNew (printNew ts)).map cook = ts := scan_print wf
+
+private def exToks : List CTok :=
+  [.text ['a', '\\', '{', '%', '\n'], .dir ['i', 'f'] ['x', ' ', '%', ' ', '2'], .text ['b', '{'],
+   .dir ['e', 'n', 'd'] [], .comment [' ', '{', '%', '#', ' '], .text ['\\']]
+
+private theorem word_i : Genshi.San.isReWord 'i' = true := by decide +kernel
+private theorem word_f : Genshi.San.isReWord 'f' = true := by decide +kernel
+private theorem word_e : Genshi.San.isReWord 'e' = true := by decide +kernel
+private theorem word_n : Genshi.San.isReWord 'n' = true := by decide +kernel
+private theorem word_d : Genshi.San.isReWord 'd' = true := by decide +kernel
+private theorem space_x : Genshi.San.isReSpace 'x' = false := by decide
+private theorem space_2 : Genshi.San.isReSpace '2' = false := by decide
+
+/-- the hypothesis of the round trip is satisfiable on a list with escapes, a multi-word value,
+    a comment holding a start delimiter and a trailing backslash -/
+example : WF exToks := by
+  have okIf : OkDir ['i', 'f'] ['x', ' ', '%', ' ', '2'] := by
+    refine ⟨by simp, ?_, by decide, ?_, ?_⟩
+    · intro c hc; simp at hc; rcases hc with rfl | rfl
+      · exact word_i
+      · exact word_f
+    · intro c hc; simp at hc; subst hc; exact space_x
+    · intro c hc; simp at hc; subst hc; exact space_2
+  have okEnd : OkDir ['e', 'n', 'd'] [] := by
+    refine ⟨by simp, ?_, by decide, ?_, ?_⟩
+    · intro c hc; simp at hc; rcases hc with rfl | rfl | rfl
+      · exact word_e
+      · exact word_n
+      · exact word_d
+    · intro c hc; simp at hc
+    · intro c hc; simp at hc
+  simp only [exToks, WF, OkTok]
+  and_intros
+  all_goals first
+    | exact okIf
+    | exact okEnd
+    | trivial
+    | decide
+    | (intro s hs u hu; simp at hs hu; subst hs; subst hu; exact ⟨rfl, by decide⟩)
+    | (intro s hs u hu; simp at hu; done)
+    | (intro s hs; simp at hs; done)
+    | simp
+
+example : printNew exToks = cs!"a\\\\\\{%\n{% if x % 2 %}b{{% end %}{# {%# #}\\\\" := by decide
+
+/-- **Text reaches the stream verbatim, modulo the documented escapes.**  A template that is the
+    escaped form of a non-empty text without `$` (backslashes doubled, a backslash in front of
+    every `{%` / `{#`) parses to exactly one TEXT event carrying that text; a text that needs no
+    escape is its own template. -/
+theorem text_reaches_stream_escaped (s : List Char) (hne : s ≠ []) (h : ∀ c ∈ s, c ≠ '$') :
+    parseNew (escapeNew s) = .ok [.text s] ∧ (plainNew s = true → parseNew s = .ok [.text s]) :=
+  ⟨parseNew_escaped hne h, parseNew_plain hne h⟩
+
+/-- **Old syntax.**  A template that is the escaped form of a non-empty text without `$` (a backslash
+    in front of every `#`) parses to exactly one TEXT event carrying that text: no line of it is
+    taken for a directive or comment line, every escape is undone. -/
+theorem text_reaches_stream_escaped_old (s : List Char) (hne : s ≠ []) (h : ∀ c ∈ s, c ≠ '$') :
+    parseOld (escapeOld s) = .ok [.text s] := parseOld_escaped hne h
+
+example : escapeOld cs!"a\n#if x\n  ## c\n" = cs!"a\n\\#if x\n  \\#\\# c\n" := by decide
+example : parseOld cs!"a\n\\#if x\n  \\#\\# c\n" = .ok [.text cs!"a\n#if x\n  ## c\n"] := by rfl
+
+/-- … and a TEXT event is rendered as itself (`_flatten`), whatever the data. -/
+theorem text_reaches_output_verbatim (s : List Char) (data : Env) (fuel : Nat) :
+    implRender (fuel + 2) [.text s] data = .ok [tx s] := by
+  simp [implRender, compileNodes, compileNode, run, seq, bind, Except.bind, pure, Except.pure]
+
+example : parseNew cs!"a\\{% b \\\\ %}\n" = .ok [.text cs!"a{% b \\ %}\n"] := by rfl
+
+/-- **Printer round trip (old syntax), partial.**
+    Full statement (open): for every well-formed old-syntax token list `ts` (texts that end a line,
+    with `\#` escapes; directive lines `[blanks]#cmd value`; comment lines `[blanks]##…`),
+    `(scanOld (printOld ts)).map cookOld = ts`.
+    Proved here, for all texts around them: (1) a directive or comment line at a line start (start
+    of the template or behind a line feed) is scanned as *one* token carrying exactly its blanks and
+    its body, and scanning goes on at the line start behind it; (2) `lstrip()[1:].split(None, 1)` of
+    such a line gives back the command and the value (with the line feed the old syntax leaves on
+    it).  Together with `text_reaches_stream_escaped_old` (escaped text holds no directive line and
+    is undone by the unescape) these are the three cases of the induction over `ts`, which is
+    missing (a text in front of a line must end in a line feed). -/
+theorem scan_old_line_roundtrip_partial :
+    (∀ (b line rest acc : List Char) (c0 p : Char) (first : Bool), (∀ c ∈ b, isBlank c = true) →
+      (Genshi.San.isReWord c0 = true ∨ c0 = '#') → (∀ c ∈ c0 :: line, c ≠ '\n') → (first = true ∨ p = '\n') →
+      scanOldGo 0 first p acc (b ++ '#' :: c0 :: (line ++ '\n' :: rest)) =
+        flushOld acc ++ OTok.line b (c0 :: (line ++ ['\n'])) :: scanOldGo 0 false '\n' [] rest) ∧
+    (∀ (b cmd val : List Char), (∀ c ∈ b, isBlank c = true) → (∀ c ∈ cmd, Genshi.San.isSpace c = false) → cmd ≠ [] →
+      (∀ c, val.head? = some c → Genshi.San.isSpace c = false) → val ≠ [] →
+      splitLine b (cmd ++ ' ' :: (val ++ ['\n'])) = (cmd, some (val ++ ['\n']))) :=
+  ⟨fun b line rest acc c0 p first hb hc hl hs => scanOld_line b line rest acc c0 p first hb hc hl hs,
+   fun b cmd val hb hc hne hv hvne => splitLine_print b cmd val hb hc hne hv hvne⟩
+
+example : scanOld cs!"  #if x\nb\n" = [.line cs!"  " cs!"if x\n", .text cs!"b\n"] ∧
+    splitLine cs!"  " cs!"if x\n" = (cs!"if", some cs!"x\n") := by decide
+
+/-- **Interpolation composed with the scanner.**  In a plain text template `pre ${inner} post` (no
+    backslash or start delimiter anywhere, no `$` in `pre` / `post`) the parsed stream is the text
+    before, one EXPR event whose source is exactly `inner` and the text after, for every scannable
+    `inner` (C03's `lex_expr`: string literals holding braces, braces nested to any depth). -/
+theorem expression_boundaries_text_template (pre inner post : List Char)
+    (hpre : ∀ c ∈ pre, c ≠ '$') (hpost : ∀ c ∈ post, c ≠ '$')
+    (hi : Genshi.Py.Lex.Scannable inner) (hin : inner ≠ [])
+    (hp : plainNew (pre ++ '$' :: '{' :: (inner ++ '}' :: post)) = true)
+    (hm : Genshi.Py.Lex.unmodelled (pre ++ '$' :: '{' :: (inner ++ '}' :: post)) = false) :
+    parseNew (pre ++ '$' :: '{' :: (inner ++ '}' :: post)) =
+      .ok (flushBuf pre ++ [.expr (Genshi.Py.Lex.stripAscii inner)] ++ flushBuf post) :=
+  parseNew_expr pre inner post hpre hpost hi hin hp hm
+
+example : Genshi.Py.Lex.Scannable cs!"x" ∧ plainNew cs!"a ${x}!" = true ∧ Genshi.Py.Lex.unmodelled cs!"a ${x}!" = false :=
+  ⟨.word 'x' [] (by decide) .nil, by decide, by decide⟩
+example : parseNew cs!"a ${x}!" = .ok [.text cs!"a ", .expr cs!"x", .text cs!"!"] := by rfl
+
+end Scanners
 
 end Genshi.Props.C04
